@@ -303,12 +303,16 @@ pub enum Resolver {
     ByIss(Alg),
     /// HS256 secret = the public PEM bytes of an asymmetric key (confusion attack set-up)
     SecretFromPublic(Alg, usize),
+    /// keyed by the header's `kid`: "k0" -> key 0, anything else (or none) -> key 1
+    ByKid(Alg),
 }
 
 #[derive(Clone, Debug, PartialEq)]
 pub struct ResolverCall {
     pub iss: String,
     pub alg: String,
+    /// the whole header the resolver was handed, as JSON
+    pub header: Value,
 }
 
 pub struct Verified {
@@ -340,11 +344,13 @@ pub fn verify_raw(
         calls2.borrow_mut().push(ResolverCall {
             iss: iss.to_string(),
             alg: format!("{:?}", header.alg),
+            header: serde_json::to_value(header).unwrap_or(Value::Null),
         });
         match &res {
             Resolver::Fixed(a, i) => keys::issuer_dec(*a, *i),
             Resolver::ByIss(a) => keys::issuer_dec(*a, if iss.ends_with("/A") { 0 } else { 1 }),
             Resolver::SecretFromPublic(a, i) => DecodingKey::from_secret(&keys::issuer_public_bytes(*a, *i)),
+            Resolver::ByKid(a) => keys::issuer_dec(*a, if header.kid.as_deref() == Some("k0") { 0 } else { 1 }),
         }
     });
     let desc = json!({"presentation": trunc(pres), "resolver": format!("{resolver:?}"), "aud": aud.as_deref().map(trunc), "nonce": nonce.as_deref().map(trunc), "format": fmt.name()});
